@@ -156,6 +156,39 @@ func init() {
 				subType{M{"type": "object", "properties": M{"o": M{"type": "object", "properties": props}, "a": M{"type": "array", "items": M{"type": "object", "properties": nprops}}}}, "Root", `{}`,
 					[]string{`{}`, `{"o":{}}`, `{"o":null}`, `{"a":[{}]}`, `{"a":[null]}`, `{"a":[{},{}]}`, `{"a":null}`}})
 		}
+		// arrays nested 1..4 deep with limits on the outermost level (the emitted loops subscript level by level), with
+		// JAGGED documents: inner arrays longer and shorter than the outer ones, empty ones, null in between
+		for depth := 1; depth <= 4; depth++ {
+			node := M{"type": "number"}
+			for d := 0; d < depth; d++ {
+				node = M{"type": "array", "items": node}
+			}
+			node["minItems"], node["maxItems"] = 1, 3
+			for _, req := range []bool{true, false} {
+				sch := M{"type": "object", "properties": M{"c": node}}
+				if req {
+					sch["required"] = []any{"c"}
+				}
+				wrap := func(inner string) string {
+					s := inner
+					for d := 3; d < depth; d++ {
+						s = "[" + s + "]"
+					}
+					return `{"c":` + s + `}`
+				}
+				var docs []string
+				switch depth {
+				case 1:
+					docs = []string{`{"c":[1,2]}`, `{"c":[]}`, `{"c":[1,2,3,4]}`, `{"c":null}`, `{}`}
+				case 2:
+					docs = []string{`{"c":[[1,2,3,4]]}`, `{"c":[[1],[1,2],[1,2,3]]}`, `{"c":[[]]}`, `{"c":[[1],null]}`, `{"c":[[1],[],[2]]}`, `{"c":[]}`}
+				default:
+					docs = []string{wrap(`[[[0,0],[1,0],[1,1],[0,0]]]`), wrap(`[[[0,0],[]]]`), wrap(`[[[1]],[[1],[2]],[[1],[2],[3]]]`), wrap(`[[[1,2,3,4,5]]]`), wrap(`[[],[[1]]]`),
+						wrap(`[[[1]],null]`), wrap(`[[null,[1]]]`), wrap(`[]`), wrap(`[[[1],[2],[3],[4]],[[1]]]`)}
+				}
+				subs = append(subs, subType{sch, "Root", `{}`, docs})
+			}
+		}
 		// property names that are special to a struct tag or to one of the two decoders' key handling, as a required
 		// and as an optional key, with documents that contain the key (valid, with a fault elsewhere, wrong-typed)
 		for _, kn := range []string{"-", "--", "-x", "x-", "a-b", "_", "a.b", "a b", "a:b", "#", "?", "omitempty", "inline", "flow", "string", "ω"} {
